@@ -4,7 +4,7 @@ from symx import logic as L
 from .world import World
 from .program import Program, show
 from .common import Driver
-from .skeletons import skeleton, U7, U9, KINDS_SMALL, KINDS_MED, KINDS_ALL
+from .skeletons import skeleton, U7, U9, UN3, KINDS_SMALL, KINDS_MED, KINDS_ALL
 from .mutate import mutate
 
 LEVEL = 'model_checking'
@@ -47,9 +47,12 @@ def families(tier):
         {'name': 'A3', 'params': {'hist': 'BFB', 'kinds': ['is_file'], 'roles': ['in/x'], 'targets': ['o/d/g'],
                                   'modes': ['ok', 'raise_after']}},
     ]
+    q.append({'name': 'N3', 'params': {'hist': 'BB', 'universe': UN3, 'kinds': ['is_dir', 'list_dir', 'exists'], 'roles': ['o', 'o/d', 'o/m']}, 'weight': 2})
     if tier == 'quick':
         return q
     return q + [
+        {'name': 'N3', 'params': {'hist': 'BMB', 'universe': UN3, 'mut_paths': ['o', 'o/d', 'o/m', 'o/d/g', 'o/m/x'],
+                                  'inner_q': ['is_dir', 'list_dir']}, 'weight': 5},
         {'name': 'A3', 'params': {'hist': 'BMB', 'kinds': KINDS_SMALL, 'roles': ['in/x', 'o']}, 'weight': 4},
         {'name': 'A4', 'params': {'hist': 'BMB', 'kinds': KINDS_SMALL, 'roles': ['in/x', 'o']}, 'weight': 4},
         {'name': 'A5a', 'params': {'hist': 'BMB', 'modes': ['ok', 'raise_before', 'raise_after']}, 'weight': 3},
